@@ -23,7 +23,16 @@ pub enum Case {
         #[serde(default)]
         after_default: bool,
     },
-    Yomi { chardef_test: bool, left: Vec<char>, right: Vec<char>, max_len: usize, texts: Vec<Vec<YP>> },
+    Yomi {
+        chardef_test: bool,
+        left: Vec<char>,
+        right: Vec<char>,
+        max_len: usize,
+        texts: Vec<Vec<YP>>,
+        /// the shipped char.def with the ideographs of the supplementary planes added to KANJI (a customised definition)
+        #[serde(default)]
+        astral: bool,
+    },
     /// a contiguous block of scalar values, each normalised alone with the shipped table
     Sweep { from: u32, to: u32, step: u32 },
 }
@@ -269,6 +278,15 @@ struct Loaded {
     dict: Dict,
 }
 
+fn yomi_chardef(test: bool, astral: bool) -> FileSrc {
+    let base = if test { FileSrc::TestRes } else { FileSrc::Shipped };
+    if astral {
+        FileSrc::Text(format!("{}\n0x20000..0x2FFFF KANJI\n0x30000..0x3134A KANJI\n", read_src("char.def", &base)))
+    } else {
+        base
+    }
+}
+
 fn load_with(ctx: &Ctx, cfg: &CfgModel) -> Result<Loaded, String> {
     let dic = DicModel {
         matrix: Matrix { nl: 1, nr: 1, lines: vec![] },
@@ -369,8 +387,9 @@ impl Property for C07 {
             prop::sample::subsequence(vec![')', '）', ']', '》'], 1..=3),
             1usize..=6,
             vec(yomi_text(n), 1..=6),
+            prop::bool::weighted(0.3),
         )
-            .prop_map(|(chardef_test, left, right, max_len, texts)| Case::Yomi { chardef_test, left, right, max_len, texts });
+            .prop_map(|(chardef_test, left, right, max_len, texts, astral)| Case::Yomi { chardef_test, left, right, max_len, texts, astral });
         prop_oneof![5 => default, 2 => psm, 2 => yomi].boxed()
     }
     fn cases_per_shard(&self, tier: Tier) -> u32 {
@@ -379,7 +398,7 @@ impl Property for C07 {
     fn sample(&self, case: &Case) -> Value {
         match case {
             Case::Default { table, texts } => json!({"rewrite_table": table, "texts": texts.iter().map(|t| render_dtext(table, t)).collect::<Vec<_>>()}),
-            Case::Yomi { chardef_test, left, right, max_len, texts } => json!({"yomigana": {"test_chardef": chardef_test, "left": left, "right": right, "max": max_len}, "texts": texts.iter().map(|t| render_yp_cd(&chardef_of(&if *chardef_test { FileSrc::TestRes } else { FileSrc::Shipped }), left, right, t)).collect::<Vec<_>>()}),
+            Case::Yomi { chardef_test, left, right, max_len, texts, astral } => json!({"yomigana": {"test_chardef": chardef_test, "astral_kanji": astral, "left": left, "right": right, "max": max_len}, "texts": texts.iter().map(|t| render_yp_cd(&chardef_of(&yomi_chardef(*chardef_test, *astral)), left, right, t)).collect::<Vec<_>>()}),
             other => serde_json::to_value(other).unwrap(),
         }
     }
@@ -526,8 +545,11 @@ impl Property for C07 {
                     }
                 }
             }
-            Case::Yomi { chardef_test, left, right, max_len, texts } => {
-                let cd_src = if *chardef_test { FileSrc::TestRes } else { FileSrc::Shipped };
+            Case::Yomi { chardef_test, left, right, max_len, texts, astral } => {
+                let cd_src = yomi_chardef(*chardef_test, *astral);
+                if *astral {
+                    rep.class("yomigana: char.def with supplementary-plane kanji");
+                }
                 let cfg = base_cfg(vec![InputPlugin::Yomigana { left: left.clone(), right: right.clone(), max_len: *max_len }], cd_src.clone());
                 let l = match load_with(ctx, &cfg) {
                     Ok(l) => l,
